@@ -763,6 +763,13 @@ func c08ModelScaling(c *Ctx) {
 			}
 			k := len(times)
 			cubic := k >= 4 && times[k-1] > 1.0 && times[k-1]/times[k-2] >= 7 && times[k-2]/times[k-3] >= 7 && times[k-3]/times[k-4] >= 7
+			// KF-C08-tuple-cycle-mesh-quartic: the weight assignment on a strongly connected mesh of tuple cycles; the
+			// recorded growth is about n^4 (0.04s at 64 relations), anything slower at the small sizes is a new violation
+			if (aborted || cubic) && name == "tuple-cycle-mesh" && en == "WeightedAuthorizationModelGraphBuilder.Build" &&
+				c.Known.Open("KF-C08-tuple-cycle-mesh-quartic") && k >= 4 && times[3] < 1.0 {
+				c.KnownHit("KF-C08-tuple-cycle-mesh-quartic", map[string]any{"family": name, "entry_point": en, "sizes": sizes[:k], "seconds": times})
+				continue
+			}
 			if aborted || cubic {
 				c.OracleFail("c08:model-scaling", map[string]any{"family": name, "entry_point": en, "sizes": sizes[:k], "seconds": times, "dsl_at_smallest_size": f(sizes[0])},
 					fmt.Sprintf("%s on the model family %q: work grows at least cubically with the size of the model, or the call did not return within %v (sizes %v, seconds %.3f)", en, name, limit, sizes[:k], times), "")
